@@ -172,6 +172,8 @@ class Key(object):
 
     def __init__(self, key="C"):
         self.key = key
+        # (refuses an unknown key, the empty string included)
+        self.signature = get_key_signature(self.key)
 
         if self.key[0].islower():
             self.mode = "minor"
@@ -187,8 +189,6 @@ class Key(object):
         except:
             symbol = ""
         self.name = "{0} {1}{2}".format(self.key[0].upper(), symbol, self.mode)
-
-        self.signature = get_key_signature(self.key)
 
     def __eq__(self, other):
         if self.key == other.key:
